@@ -121,10 +121,14 @@ func findCommentBlockFolds(content string) []protocol.FoldingRange {
 
 		startLine := i
 		endLine := i
+		// Indented comment lines belong to a transaction, top-level ones do not:
+		// a block of one kind ends where the other begins, so that a comment fold
+		// never straddles the end of a transaction's fold.
+		indented := isIndentedLine(lines[i])
 
 		for j := i + 1; j < len(lines); j++ {
 			nextLine := strings.TrimSpace(lines[j])
-			if strings.HasPrefix(nextLine, ";") || strings.HasPrefix(nextLine, "#") {
+			if (strings.HasPrefix(nextLine, ";") || strings.HasPrefix(nextLine, "#")) && isIndentedLine(lines[j]) == indented {
 				endLine = j
 			} else {
 				break
@@ -143,4 +147,8 @@ func findCommentBlockFolds(content string) []protocol.FoldingRange {
 	}
 
 	return ranges
+}
+
+func isIndentedLine(line string) bool {
+	return strings.HasPrefix(line, " ") || strings.HasPrefix(line, "\t")
 }
